@@ -386,6 +386,15 @@ theorem cols_step (cfg : Cfg) (s : State) (op : Op) (hf : AllCols cfg s) : AllCo
   | pickle h fail => exact cols_pickle _ _ _ _ hf
   | drop h => exact cols_drop _ _ _ hf
   | bulkDelete cls ids => exact allCols_congr _ _ _ hf rfl
+  | unpickle h cls id snap clash =>
+    simp only [step, opUnpickle]
+    split
+    · exact hf
+    · split
+      · exact hf
+      · refine allCols_register _ _ _ _ hf ⟨fun c hc => ?_, by simp [unpickledInst]⟩
+        have hc' : cfg.ncols cls ≤ c := hc
+        simp [unpickledInst, snapCached, Nat.not_lt_of_ge hc']
   | oobUpdate cls id c v => exact allCols_congr _ _ _ hf rfl
   | oobDelete cls id => exact allCols_congr _ _ _ hf rfl
   | oobInsert cls id vals =>
